@@ -309,6 +309,28 @@ theorem c17_eventually (n : Nat) (s : St) (hs : s.scheduled = true) (hd : s.done
         rw [this.1, hy, hvq]; simp
       · rw [hv] at hn; simp at hn
 
+/-- **C17 (any run length)**: however long the run of invalid (or lagged-over) items buffered in front of
+    a valid message is — `pre` is an arbitrary list without valid items, no bound on its length — a
+    *single* scheduled poll of the repaired code skips all of it and yields that message. (Also a
+    consequence of `c17_eventually` with `n = 1`; stated separately because a per-poll skip budget is
+    exactly what would break it.) -/
+theorem c17_any_run_length (s : St) (pre : List Item) (id : Nat) (hs : s.scheduled = true)
+    (hd : s.done = false) (hq : s.queue = pre ++ [.valid id]) (hpre : valids pre = []) :
+    ∃ s', poll s = some s' ∧ s'.yielded = s.yielded ++ [id] ∧ valids s'.queue = [] := by
+  cases hp : poll s with
+  | none => simp [poll, pollWith, hs, hd] at hp
+  | some s' =>
+    refine ⟨s', rfl, ?_⟩
+    have hv : valids s.queue = [id] := by rw [hq, valids_append, hpre]; simp [valids]
+    rcases c17_poll_progress s s' hp with ⟨id', pre', hpre', hq', hy, _, _, _⟩ | ⟨hv', _, _, _⟩
+    · have h2 : valids s.queue = id' :: valids s'.queue := by
+        rw [hq', valids_append, hpre']; simp [valids]
+      rw [hv] at h2
+      injection h2 with h3 h4
+      subst h3
+      exact ⟨hy, h4.symm⟩
+    · rw [hv] at hv'; cases hv'
+
 /-! ### the pinned tree stalls -/
 
 /-- **The pinned tree violates C17**: queue `[invalid, valid 0]`, one scheduled poll → the outer poll
@@ -343,5 +365,8 @@ example : (runExec 3 ((push (push (push (init 8) .invalid) (.valid 0)) .invalid)
     = [0, 1] := by decide
 example : Reach 4 (push (push (init 4) .invalid) (.valid 0)) :=
   Reach.step (Reach.step Reach.init ⟨.push .invalid, by rfl⟩) ⟨.push (.valid 0), by rfl⟩
+
+example : (runSched step (init 128) ((List.replicate 40 (Action.push .invalid)) ++ [.push (.valid 0), .poll])).map
+    (fun s => (s.yielded, s.polls)) = some ([0], 1) := by decide
 
 end P2.C17
